@@ -236,3 +236,290 @@ pub fn sweep(npieces: usize, strengths: &[u8], depth: u32, shard: usize, nshards
     });
     sink.add(&format!("sweep{}_roots", npieces), roots);
 }
+
+/// W5b "saturated neighbourhood" (the dead-end builder of DESIGN.md §5 W5, generalised).
+/// Builds, with the model only, a game in which one mobile piece X of the first mover walks so
+/// that the positions "X on s" and "X on each empty neighbour of s" (other side to move) have
+/// each occurred twice; in the final turn X steps t -> u -> prev -> s, so that at step 3 the pass
+/// and every step of X are withheld by the repetition rules. With a weaker enemy piece next to
+/// `prev` the only offered action is the pull; without it the state is a mid-turn dead end.
+/// Returns (start board, side to move first, script, kind).
+pub static SAT_FAIL: [std::sync::atomic::AtomicU64; 40] = [const { std::sync::atomic::AtomicU64::new(0) }; 40];
+pub fn saturated_script(rng: &mut Rng) -> Option<(MBoard, bool, Vec<Code>, &'static str)> {
+    let dist = |a: usize, b: usize| ((a % 8) as i32 - (b % 8) as i32).abs() + ((a / 8) as i32 - (b / 8) as i32).abs();
+    let near_trap = |i: usize| TRAPS.iter().any(|t| dist(*t, i) <= 1);
+    for _ in 0..60 {
+        let gold = rng.chance(1, 2); // colour of X's side
+        let mirror = rng.chance(1, 2);
+        // geometry in "gold, unmirrored" coordinates; transformed at the end
+        // s in rows 3..4 (ranks 5/4), columns 3..6, all visited squares away from traps
+        let s = [25usize, 26, 27, 28, 29, 30, 33, 34, 35, 36, 37, 38][rng.below(12)];
+        let dirs: Vec<u8> = (0..4u8).collect();
+        let d = dirs[rng.below(4)];
+        let prev = match nb(s, opp(d)) {
+            Some(x) => x,
+            None => { SAT_FAIL[11].fetch_add(1, std::sync::atomic::Ordering::Relaxed); continue }
+        };
+        let u = match nb(prev, opp(d)) {
+            Some(x) => x,
+            None => { SAT_FAIL[12].fetch_add(1, std::sync::atomic::Ordering::Relaxed); continue }
+        };
+        // t adjacent to u, not prev
+        let tc: Vec<usize> = (0..4u8).filter_map(|k| nb(u, k)).filter(|x| *x != prev).collect();
+        if tc.is_empty() {
+            { SAT_FAIL[1].fetch_add(1, std::sync::atomic::Ordering::Relaxed); continue; }
+        }
+        let t = tc[rng.below(tc.len())];
+        let ns: Vec<usize> = (0..4u8).filter_map(|k| nb(s, k)).collect();
+        let mut walk_squares: Vec<usize> = vec![s, prev, u, t];
+        walk_squares.extend(ns.iter());
+        // optional enemy piece next to prev (beside the walk line)
+        let xs = 1 + rng.below(5) as u8; // X: cat..elephant
+        let with_pull = rng.chance(2, 3);
+        let pc: Vec<usize> = (0..4u8).filter_map(|k| nb(prev, k)).filter(|q| !walk_squares.contains(q) && !TRAPS.contains(q) && (1..7).contains(&(q / 8))).collect();
+        if with_pull && pc.is_empty() {
+            { SAT_FAIL[2].fetch_add(1, std::sync::atomic::Ordering::Relaxed); continue; }
+        }
+        let psq = if with_pull { pc[rng.below(pc.len())] } else { 64 };
+        // wander squares for the off-beat turns: distance 2..3 from s (so every leg is <= 4 steps)
+        let ws: Vec<usize> = (8..56).filter(|w| (dist(*w, s) == 2 || dist(*w, s) == 3) && !walk_squares.contains(w) && !TRAPS.contains(w) && *w != psq).collect();
+        if ws.len() < 7 {
+            { SAT_FAIL[3].fetch_add(1, std::sync::atomic::Ordering::Relaxed); continue; }
+        }
+        let mut all: Vec<usize> = walk_squares.clone();
+        all.extend(ws.iter());
+        if all.iter().any(|q| near_trap(*q)) && rng.chance(9, 10) {
+            // keep some scripts that brush traps out (captures would abort the script anyway)
+            if all.iter().any(|q| TRAPS.contains(q)) {
+                { SAT_FAIL[4].fetch_add(1, std::sync::atomic::Ordering::Relaxed); continue; }
+            }
+        }
+        let mut b = MBoard::empty();
+        // immobile rabbits: gold R on a1 frozen by a silver cat/dog on a2; silver r on h8 (static)
+        b.0[56] = cell(0, true);
+        b.0[48] = cell(1 + rng.below(2) as u8, false);
+        b.0[7] = cell(0, false);
+        b.0[15] = cell(1 + rng.below(2) as u8, true);
+        // shuffle piece z of the other side: far from the walk, on the h/a file
+        let zcands: Vec<(usize, usize)> = [(31usize, 39usize), (23, 31), (39, 47), (24, 32), (32, 40), (16, 24)].iter().copied().filter(|(a, c)| all.iter().all(|q| dist(*q, *a) >= 2 && dist(*q, *c) >= 2)).collect();
+        if zcands.is_empty() {
+            { SAT_FAIL[5].fetch_add(1, std::sync::atomic::Ordering::Relaxed); continue; }
+        }
+        let (za, zb) = zcands[rng.below(zcands.len())];
+        b.0[za] = cell(2 + rng.below(3) as u8, false);
+        // enemy piece next to prev, weaker than X
+        if with_pull {
+            if b.0[psq] != 0 {
+                { SAT_FAIL[6].fetch_add(1, std::sync::atomic::Ordering::Relaxed); continue; }
+            }
+            b.0[psq] = cell(rng.below(xs as usize) as u8, false);
+        }
+        // X starts on a wander square
+        let x0 = ws[0];
+        if b.0[x0] != 0 {
+            { SAT_FAIL[7].fetch_add(1, std::sync::atomic::Ordering::Relaxed); continue; }
+        }
+        b.0[x0] = cell(xs, true);
+        if !b.is_legal_position() {
+            { SAT_FAIL[8].fetch_add(1, std::sync::atomic::Ordering::Relaxed); continue; }
+        }
+        // destinations: on-beat turns visit s and its neighbours twice each
+        let mut targets: Vec<usize> = vec![s];
+        targets.extend(ns.iter().filter(|q| b.0[**q] == 0));
+        let mut plan: Vec<usize> = vec![];
+        let mut wi = 1usize;
+        for rep in 0..2 {
+            let mut tt = targets.clone();
+            if rep == 1 {
+                rng.shuffle(&mut tt);
+                // finish on `prev`, two steps away from t
+                if let Some(k) = tt.iter().position(|q| *q == prev) {
+                    let l = tt.len() - 1;
+                    tt.swap(k, l);
+                }
+            }
+            for q in tt {
+                plan.push(q);
+                // off-beat destination: cycle through the wander squares (each at most twice)
+                plan.push(ws[1 + wi % (ws.len() - 1)]);
+                wi += 1;
+            }
+        }
+        // last off-beat destination must be t
+        let n = plan.len();
+        plan[n - 1] = t;
+        // simulate with the model: X walks (shortest path, <= 3 steps, then pass), z alternates
+        let mut board = b;
+        let mut script: Vec<Code> = vec![];
+        let mut hist: std::collections::HashMap<(MBoard, bool), u32> = std::collections::HashMap::new();
+        hist.insert((board, true), 1);
+        let mut xpos = x0;
+        let mut zpos = za;
+        let mut ok = true;
+        let path = |board: &MBoard, from: usize, to: usize| -> Option<Vec<(usize, u8)>> {
+            // BFS over empty squares, at most 4 steps (a 4-step leg ends the turn by itself)
+            let mut prevm: std::collections::HashMap<usize, (usize, u8)> = std::collections::HashMap::new();
+            let mut frontier = vec![from];
+            for _ in 0..4 {
+                let mut next = vec![];
+                for f in frontier {
+                    for k in 0..4u8 {
+                        if let Some(n2) = nb(f, k) {
+                            if n2 != from && board.0[n2] == 0 && !TRAPS.contains(&n2) && !prevm.contains_key(&n2) {
+                                prevm.insert(n2, (f, k));
+                                next.push(n2);
+                            }
+                        }
+                    }
+                }
+                frontier = next;
+            }
+            if !prevm.contains_key(&to) {
+                return None;
+            }
+            let mut out = vec![];
+            let mut cur = to;
+            while cur != from {
+                let (p, k) = prevm[&cur];
+                out.push((p, k));
+                cur = p;
+            }
+            out.reverse();
+            Some(out)
+        };
+        for dest in plan.iter() {
+            if *dest == xpos {
+                { SAT_FAIL[20].fetch_add(1, std::sync::atomic::Ordering::Relaxed); ok = false; }
+                break;
+            }
+            let steps = match path(&board, xpos, *dest) {
+                Some(p) => p,
+                None => {
+                    { SAT_FAIL[21].fetch_add(1, std::sync::atomic::Ordering::Relaxed); ok = false; }
+                    break;
+                }
+            };
+            let mut pend = Pend::None;
+            let start = board;
+            for (k, (sq, dd)) in steps.iter().enumerate() {
+                if !board.legal(true, k as u8, pend).contains(step_code(*sq, *dd)) {
+                    { SAT_FAIL[22].fetch_add(1, std::sync::atomic::Ordering::Relaxed); ok = false; }
+                    break;
+                }
+                let a = board.apply(true, pend, *sq, *dd).unwrap();
+                if !a.captured.is_empty() {
+                    { SAT_FAIL[23].fetch_add(1, std::sync::atomic::Ordering::Relaxed); ok = false; }
+                    break;
+                }
+                board = a.board;
+                pend = a.pend;
+                script.push(step_code(*sq, *dd));
+            }
+            if !ok || board == start {
+                { SAT_FAIL[24].fetch_add(1, std::sync::atomic::Ordering::Relaxed); ok = false; }
+                break;
+            }
+            let c = hist.entry((board, false)).or_insert(0);
+            if *c >= 2 {
+                { SAT_FAIL[25].fetch_add(1, std::sync::atomic::Ordering::Relaxed); ok = false; }
+                break;
+            }
+            *c += 1;
+            if steps.len() < 4 {
+                script.push(PASS);
+            }
+            xpos = *dest;
+            // other side: z alternates
+            let (zf, zt) = if zpos == za { (za, zb) } else { (zb, za) };
+            let dz = (0..4u8).find(|k| nb(zf, *k) == Some(zt)).unwrap();
+            if !board.legal(false, 0, Pend::None).contains(step_code(zf, dz)) {
+                { SAT_FAIL[26].fetch_add(1, std::sync::atomic::Ordering::Relaxed); ok = false; }
+                break;
+            }
+            let a = board.apply(false, Pend::None, zf, dz).unwrap();
+            if !a.captured.is_empty() {
+                { SAT_FAIL[27].fetch_add(1, std::sync::atomic::Ordering::Relaxed); ok = false; }
+                break;
+            }
+            board = a.board;
+            zpos = zt;
+            let c = hist.entry((board, true)).or_insert(0);
+            if *c >= 2 {
+                { SAT_FAIL[28].fetch_add(1, std::sync::atomic::Ordering::Relaxed); ok = false; }
+                break;
+            }
+            *c += 1;
+            script.push(step_code(zf, dz));
+            script.push(PASS);
+        }
+        if !ok || zpos != za || xpos != t {
+            { SAT_FAIL[9].fetch_add(1, std::sync::atomic::Ordering::Relaxed); continue; }
+        }
+        // the final turn: t -> u -> prev -> s
+        let mut pend = Pend::None;
+        let mut cur = t;
+        for (k, nx) in [u, prev, s].iter().enumerate() {
+            let dd = match (0..4u8).find(|q| nb(cur, *q) == Some(*nx)) {
+                Some(x) => x,
+                None => {
+                    { SAT_FAIL[29].fetch_add(1, std::sync::atomic::Ordering::Relaxed); ok = false; }
+                    break;
+                }
+            };
+            if !board.legal(true, k as u8, pend).contains(step_code(cur, dd)) {
+                { SAT_FAIL[30].fetch_add(1, std::sync::atomic::Ordering::Relaxed); ok = false; }
+                break;
+            }
+            let a = board.apply(true, pend, cur, dd).unwrap();
+            if !a.captured.is_empty() {
+                { SAT_FAIL[31].fetch_add(1, std::sync::atomic::Ordering::Relaxed); ok = false; }
+                break;
+            }
+            board = a.board;
+            pend = a.pend;
+            script.push(step_code(cur, dd));
+            cur = *nx;
+        }
+        if !ok {
+            { SAT_FAIL[10].fetch_add(1, std::sync::atomic::Ordering::Relaxed); continue; }
+        }
+        // transform to the chosen colour / mirror
+        let flip = !gold;
+        let tb = b.transform(mirror, flip);
+        let tscript: Vec<Code> = script.iter().map(|c| map_code(*c, mirror, flip)).collect();
+        return Some((tb, gold, tscript, if with_pull { "only_pull_left" } else { "dead_end" }));
+    }
+    None
+}
+
+pub fn play_saturated(games: u64, seed: u64, worker: usize, opts: &PlayOpts, mon: &mut dyn Monitor, sink: &mut Sink) {
+    let mut rng = Rng::new(seed, (worker as u64) << 8 | 0x5B);
+    for idx in 0..games {
+        match saturated_script(&mut rng) {
+            Some((b, gold, script, kind)) => {
+                sink.count(if kind == "dead_end" { "saturated_scripts_dead_end" } else { "saturated_scripts_only_pull_left" });
+                let start = if rng.chance(1, 10) { Start::Text { board: b, gold, moveno: 2 + rng.below(50) as u64 } } else { Start::Inject { board: b, gold, moveno: 2 + rng.below(50) as u64 } };
+                let mut rec = GameRecord::new("W5b-saturated", seed, (worker as u64) << 32 | idx, start);
+                play(&mut rec, Policy::Script(script), opts, &mut rng, mon, sink);
+            }
+            None => sink.count("saturated_script_construction_failed"),
+        }
+    }
+}
+
+#[cfg(test)]
+mod tests {
+    use super::*;
+    #[test]
+    fn saturated_kinds() {
+        let mut rng = Rng::new(1, 1);
+        let mut k = std::collections::BTreeMap::new();
+        for _ in 0..300 {
+            let r = saturated_script(&mut rng);
+            *k.entry(r.map(|x| x.3).unwrap_or("none")).or_insert(0) += 1;
+        }
+        println!("{:?}", k);
+        println!("{:?}", SAT_FAIL.iter().map(|x| x.load(std::sync::atomic::Ordering::Relaxed)).collect::<Vec<_>>());
+        assert!(k.get("only_pull_left").copied().unwrap_or(0) > 20 && k.get("dead_end").copied().unwrap_or(0) > 20);
+    }
+}
